@@ -221,9 +221,18 @@ class BuiltinMixin(object):
         raise OutOfReach('hasattr on %r' % (x,))
 
     def bi_getattr(self, st, args, kwargs, fr):
-        if len(args) != 2 or not (args[1].is_py and isinstance(args[1].py, str)):
-            raise OutOfReach('getattr with symbolic name / default')
-        return self.getattr_(st, args[0], args[1].py, fr)
+        if len(args) not in (2, 3) or not (args[1].is_py and isinstance(args[1].py, str)):
+            raise OutOfReach('getattr with symbolic name')
+        if len(args) == 2:
+            return self.getattr_(st, args[0], args[1].py, fr)
+        return self._getattr_default(st, args[0], args[1].py, args[2], fr)
+
+    def _getattr_default(self, st, obj, name, default, fr):
+        for st1, r in self.getattr_(st, obj, name, fr):
+            if isinstance(r, Raised) and issubclass(r.exc.cls, AttributeError):
+                yield st1, default
+            else:
+                yield st1, r
 
     def bi_setattr(self, st, args, kwargs, fr):
         if not (args[1].is_py and isinstance(args[1].py, str)):
